@@ -11,6 +11,7 @@ import (
 
 	"verifharness/internal/eng"
 	"verifharness/internal/rec"
+	"verifharness/internal/sched"
 )
 
 func init() {
@@ -29,6 +30,7 @@ type c04case struct {
 	defPos int // -1 none, else position of the default flow in the outgoing list (0..c)
 	truth  int // bit i = condition i true
 	toks   int // tokens arriving concurrently
+	conc   int // 0: the upstream tasks are answered one at a time; 1: all at once; 2: all at once, schedule points perturbed
 }
 
 func c04cases(tier string) []c04case {
@@ -40,7 +42,13 @@ func c04cases(tier string) []c04case {
 					if tier != "thorough" && c == 4 && (tr+d+k)%3 != 0 {
 						continue
 					}
-					cs = append(cs, c04case{c, d, tr, k})
+					if k == 1 {
+						cs = append(cs, c04case{c, d, tr, k, 0})
+						continue
+					}
+					// several tokens: one at a time, all at once, and all at once under perturbation (the probing report of
+					// one token racing the next-action message of another)
+					cs = append(cs, c04case{c, d, tr, k, 0}, c04case{c, d, tr, k, 1}, c04case{c, d, tr, k, 2})
 				}
 			}
 		}
@@ -98,8 +106,14 @@ func c04run(out *rec.Out, c c04case, rng *rec.Rng, stats map[string]int) {
 			g.Connect(a, x, nil)
 		}
 	}
-	out.Begin("c04", c.c, c.defPos, c.truth, c.toks)
+	out.Begin("c04", c.c, c.defPos, c.truth, c.toks, c.conc)
 	defer out.End()
+	if c.conc == 2 {
+		ctl := sched.Install()
+		ctl.Perturb(rng.Fork().U64(), 2)
+		defer ctl.Remove()
+		stats["perturbed"]++
+	}
 	anyVars := map[string]any{}
 	for k, v := range vars {
 		anyVars[k] = v
@@ -121,7 +135,7 @@ func c04run(out *rec.Out, c c04case, rng *rec.Rng, stats map[string]int) {
 	stats[fmt.Sprintf("flows%d_def%d_toks%d", c.c, rec.B(c.defPos >= 0), c.toks)]++
 	// answer the upstream tasks: either one at a time at quiescence, or all at once (concurrent arrival)
 	in.Quiesce(4 * timeSecond)
-	concurrent := rng.Bool() && c.toks > 1
+	concurrent := c.conc > 0 && c.toks > 1
 	if concurrent {
 		stats["concurrent_arrival"]++
 		ps := in.Pending()
